@@ -2,7 +2,7 @@
     model/Limiter.v (C05: explicit panic outcomes, `remainder as u64`) and model/Sys.v (the
     drawing-system model of C01-C04, C06, C18, C19 and of the MultiProgress theorems of C05: total
     functions, verdict first) each transcribe RateLimiter::{new,allow} (src/draw_target.rs:450-490)
-    and AtomicPosition::{new,allow,reset} (src/state.rs:548-596).  Pointwise, on verdict AND next
+    and AtomicPosition::{new,allow,reset} (src/state.rs:555-603).  Pointwise, on verdict AND next
     state: the position limiters agree in every state; the draw-target limiters agree in every
     state whose interval is positive and fits the `as u64` cast - in particular in every state
     reachable from `new` with a refresh rate in 1..=255 (interval <= 10^9). *)
